@@ -93,6 +93,13 @@ func (f *Func) Redefine(opts ...Arg) (*Func, error) {
 		// our new functions to return a final error type so set that and
 		// return.
 		if err := result.Err(); err != nil {
+			// If the function itself ran and returned this error, pass on
+			// everything it returned: the values next to the error are
+			// its results just like the error is.
+			if hasErr && result.buildErr == nil && len(result.out) == len(out) {
+				return result.out
+			}
+
 			retval := make([]reflect.Value, len(out))
 			for i, t := range out {
 				retval[i] = reflect.Zero(t)
